@@ -1112,6 +1112,22 @@ package leveldb
 //@   safety off
 //@   ensures [C07,C08,C11:the-file-handle-is-spent-after-close-whatever-it-returned] w.w == nil
 
+// C07 / C03: installing a version. The new version is taken hold of BEFORE the current one is let go (the files both
+// list must not drop to zero references in between), the delta handed to the reference loop lists exactly the tables
+// the record adds and deletes, and afterwards the session's current version is the new one.
+//@ count (*version).incref
+//@ count (*version).releaseNB
+//@ func (*session).setVersion
+//@   props C07 C03
+//@   safety off
+//@   loop 1
+//@     invariant [C03,C07:the-delta-lists-the-tables-the-record-adds] len(added) == rangeidx && (forall k int :: 0 <= k && k < rangeidx ==> added[k] == r.addedTables[k].num)
+//@   loop 2
+//@     invariant [C03,C07:the-delta-lists-the-tables-the-record-deletes] len(deleted) == rangeidx && (forall k int :: 0 <= k && k < rangeidx ==> deleted[k] == r.deletedTables[k].num) && len(added) == len(r.addedTables)
+//@   at before call (*version).releaseNB#1
+//@     assert [C03,C07:the-new-version-is-held-before-the-current-one-is-let-go] calls("(*version).incref") == old(calls("(*version).incref")) + 1 && recv == old(s.stVersion)
+//@   ensures [C03,C07:the-new-version-is-current] s.stVersion == v
+
 // C07 (space is reclaimed): a version stays referenced - and every table it lists stays in storage - until its
 // reference is given back. Choosing the inputs of a compaction takes a reference on the current version; it is
 // either handed to the compaction (which releases it when it is done) or given back on the spot.
